@@ -4,11 +4,13 @@ Generated programs over a reference graph (DESIGN.md 3.2), shared by C14 / C03 /
 Node i is a function n<i>(d=0, fns=None); kind 'm' = memento function (automatic version), 'p' = plain helper.
 Edge i -> j means "the body of n<i> names n<j>" in one of four reference forms.
 """
-FORMS = ["bare", "module.attr", "alias", "wrapped"]
+FORMS = ["bare", "module.attr", "alias", "wrapped", "shadowed"]
+# "shadowed": a bare-name call, while the same body also contains a nested lambda and a nested def whose parameter / local variable
+# has the callee's name (an inner scope's binding must not hide the outer reference from the static analysis)
 
 
 def ref_expr(j, form):
-    if form == "bare":
+    if form in ("bare", "shadowed"):
         return "n%d" % j
     if form == "module.attr":
         return "_self.n%d" % j
@@ -28,6 +30,9 @@ def gen_graph_source(n, kinds, adj, forms, hidden=None, consts=None, module="vpg
         for j in range(n):
             if adj[i][j]:
                 calls.append("        r += %s(d + 1)\n" % ref_expr(j, forms[i][j]))
+                if forms[i][j] == "shadowed":
+                    calls.append("        r += (lambda n%d: n%d)(0)\n" % (j, j))
+                    calls.append("        def _inner%d(x):\n            n%d = x\n            return n%d\n        r += _inner%d(0)\n" % (j, j, j, j))
         if calls:
             body.append("    if d == 0:\n" + "".join(calls))
         if hidden is not None and hidden[0] == i:
